@@ -1,4 +1,5 @@
 import UgoVerif.Proofs.PosLines
+import UgoVerif.Proofs.C16Site
 /-
   C16 — runtime errors report the true source locations.
 
@@ -9,6 +10,15 @@ import UgoVerif.Proofs.PosLines
   frame lists and texts.  The VM/compiler side (that the saved ip of a frame lies
   in the call's own statement) is the explicit hypothesis `SavedIpInCallStmt`;
   the full statement is `C16_full`, the proved part `C16_partial`.
+
+  Round 3 (sections 7-9): `SavedIpInCallStmt` is discharged for the output of the total
+  compile model (`Model/Compile.lean`, optimizer off, no imports) run by the VM model
+  (`VM/*.lean`): `sourcemap_covers` (compile side: every instruction has its own source-map
+  entry; the instruction after a CALL / CALLNAME exists and carries the label — the line — of the
+  call), `saved_ip_is_call_site` (VM side: every frame below the current one is suspended at a
+  CALL / CALLNAME of its own function, `frame.ip = p + 2`), `C16_compiled` (their combination).
+  What remains a hypothesis is named `ExecAtStarts`: the VM dispatches opcodes only at
+  instruction starts of compiled code.
 -/
 namespace UgoVerif.Props.C16
 open UgoVerif UgoVerif.Go UgoVerif.Model UgoVerif.Proofs.Pos
@@ -301,5 +311,228 @@ example : SavedIpInCallStmt
       stmtPos := 30, callPos := [20] } := by
   refine ⟨by decide, by decide, ?_⟩
   intro f hf; simp at hf; subst hf; rfl
+
+/-! ### 7. compile side: the source map covers every instruction -/
+
+section compile
+open UgoVerif.Compile UgoVerif.Ast
+
+/-- **sourcemap_covers.**  For every script the total compile model accepts and every labelling
+    `lab` of source positions under which the script has one statement per label (`labSs`: every
+    expression that belongs directly to a statement is labelled like the statement; `lab` = "line
+    of"), the main function and every function constant of the bytecode satisfy `FnCov lab`:
+    the stream decodes; EVERY instruction start has its own source-map entry (the VM can raise an
+    error or record a trace entry only at an instruction, so `SourcePos` never has to search);
+    and for every CALL / CALLNAME at an instruction start `p`, `p + 3` — the offset
+    `getFrameSourcePos` looks up for the suspended caller: saved `ip + 1 = (p + 2) + 1` — is the
+    start of a further instruction whose own entry has the same label as the entry of the call.
+    (vm.go reports the position of the instruction AFTER the call, not of the call.) -/
+theorem sourcemap_covers (lab : Nat → Nat) (builtins : List (String × Nat)) (disabled : List String)
+    (file : List Stmt) (hl : labSs lab file = true) (bc : Compile.Bytecode)
+    (h : compileFile builtins disabled file = .ok bc) :
+    FnCov lab bc.main ∧ ∀ g, Const.fn g ∈ bc.constants.toList → FnCov lab g :=
+  compileFile_cov lab builtins disabled file hl bc h
+
+/-- the part that needs nothing of the script (any layout): every instruction has its own entry and
+    a call is always followed by an instruction with its own entry -/
+theorem sourcemap_covers_any (builtins : List (String × Nat)) (disabled : List String)
+    (file : List Stmt) (bc : Compile.Bytecode) (h : compileFile builtins disabled file = .ok bc) :
+    FnCov lab0 bc.main ∧ ∀ g, Const.fn g ∈ bc.constants.toList → FnCov lab0 g :=
+  compileFile_cov0 builtins disabled file bc h
+
+/-- two statements on two "lines" (label = position / 20), each with a call -/
+def demoFile : List Stmt :=
+  [ .expr 10 (.call 10 false (.undef 10) []),
+    .return_ 30 (some (.call 35 false (.undef 35) [])) ]
+
+example : labSs (fun p => p / 20) demoFile = true := by decide
+example : ∃ bc, compileFile [] [] demoFile = .ok bc := ⟨_, rfl⟩
+
+end compile
+
+/-! ### 8. VM side: the saved ip of a suspended frame is a call site -/
+
+section vm
+open UgoVerif.VM
+
+/-- **saved_ip_is_call_site.**  At every instruction boundary of a run of the VM model (after the
+    prologue; after an instruction that ended with `continue`; after a recovered Go panic) at which
+    `vm.err` is unset, every frame below the current one belongs to a heap function cell whose code
+    has a CALL / CALLNAME opcode byte at `frame.ip - 2`, and `G` — whatever is known of every
+    dispatched offset (`DispG`) — holds of that offset: frames are pushed only by
+    `xOpCallCompiled`, which stores `ip + 2`; a self tail call reuses the frame; `OpReturn` and
+    `throw` only pop.  For ARBITRARY bytecode. -/
+theorem saved_ip_is_call_site (G : Code → Nat → Prop) (F : FloatOps) {s0 : State} (h0 : CallSites G s0)
+    (hD : ∀ s, Boundary F s0 s → s.err = none → DispG G s) (s : State) (hb : Boundary F s0 s)
+    (he : s.err = none) : CallSites G s :=
+  reach_callSites F h0 hD s hb he
+
+/-- one instruction (any opcode) keeps it … -/
+theorem saved_ip_step (G : Code → Nat → Prop) (F : FloatOps) {s : State} (hcs : CallSites G s) (hd : DispG G s)
+    (s' : State) (hstep : exec (step F) s = (.ok .next, s')) (herr : s'.err = none) : CallSites G s' :=
+  step_callSites F hcs hd s' hstep herr
+
+/-- … and the prologue of `Run` establishes it -/
+theorem saved_ip_after_prologue (G : Code → Nat → Prop) (g : V) (args : List V) {s s' : State}
+    (hsz : s.frames.size = frameSize) (h : exec (prologue g args) s = (.ok (), s')) : CallSites G s' :=
+  callSites_prologue g args hsz h
+
+example (codes : Array Code) (heap : Array Cell) (consts : Array V) (mainFn : Addr) (nm : Nat) :
+    CallSites (fun _ _ => True) { newState codes heap consts mainFn nm with frameIndex := 1 } :=
+  callSites_init rfl rfl (by simp [newState, emptyFrames])
+
+end vm
+
+/-! ### 9. the combination: compiled scripts -/
+
+section compiled
+open UgoVerif.VM UgoVerif.Compile UgoVerif.Proofs.C16
+
+/-- what `throw` reads off the VM state `s` (code memory `fns.map codeOfCFn`) when the instruction at
+    `s.ip` raises an error, and what the compiler recorded: `stmtPos` = the entry of the failing
+    instruction, `callPos` = for every frame below the current one (innermost first) the entry of the
+    instruction that follows its call -/
+def siteOf (fns : List CFn) (s : State) : ThrowSite :=
+  { curFn := (frameFn fns s (s.frames[s.curFrame]!)).map smOf
+    curIp := s.ip
+    callers := callersOf fns s
+    stmtPos := recorded fns s (s.frames[s.curFrame]!) s.ip
+    callPos := (List.range s.curFrame).reverse.map fun i =>
+      recorded fns s (s.frames[i]!) ((s.frames[i]!).ip + 1) }
+
+/-- a VM state in which an error raised by the instruction at `s.ip` escapes: the code memory
+    is compiler output, the frame stack satisfies the call-site invariant for "instruction start",
+    the failing instruction is at an instruction start of the current function, and no frame
+    below has a handler -/
+structure UncaughtThrow (lab : Nat → Nat) (fns : List CFn) (s : State) : Prop where
+  codes : s.codes.toList = fns.map Eval.codeOfCFn
+  cov : ∀ g ∈ fns, FnCov lab g
+  sites : CallSites AtStart s
+  cur : ∃ fa c fr, (s.frames[s.curFrame]!).fn = some fa ∧ s.heap[fa]? = some (Cell.fn c fr) ∧ 0 ≤ s.ip ∧
+    Bd (s.codes[c]!).insts s.ip.toNat
+  uncaught : ∀ i, i ≤ s.curFrame → hasHandler (s.frames[i]!) = false
+
+/-- the VM/compiler hypothesis of `C16_partial`, proved for such states -/
+theorem throw_site_ok (lab : Nat → Nat) (fns : List CFn) (s : State) (h : UncaughtThrow lab fns s) :
+    SavedIpInCallStmt (siteOf fns s) := by
+  obtain ⟨fa, c, fr, hfn, hheap, h0, hbd⟩ := h.cur
+  refine ⟨?_, ?_, ?_⟩
+  · obtain ⟨g, v, hff, hv, hpos⟩ := current_reports lab h.codes h.cov hfn hheap h0 hbd
+    simp only [siteOf]
+    rw [hpos]
+    simp [recorded, hff, hv]
+  · simp only [siteOf, callersOf, List.map_map]
+    apply List.map_congr_left
+    intro i hi
+    have hi' : i < s.curFrame := by simpa using hi
+    obtain ⟨g, v, v', hff, _, hv', _, hpos⟩ := caller_reports lab h.codes h.cov (h.sites.inv i hi')
+    simp only [Function.comp]
+    rw [hpos]
+    simp [recorded, hff, hv']
+  · intro f hf
+    simp only [siteOf, callersOf, List.mem_map, List.mem_reverse, List.mem_range] at hf
+    obtain ⟨i, hi, rfl⟩ := hf
+    exact h.uncaught i (Nat.le_of_lt hi)
+
+/-- the throw sites of compiled scripts -/
+def ReachCompiled (lab : Nat → Nat) (fns : List CFn) (t : ThrowSite) : Prop :=
+  ∃ s, UncaughtThrow lab fns s ∧ t = siteOf fns s
+
+/-- **C16_compiled.**  `C16_full` for the throw sites of compiled scripts: the reported trace is
+    the entries recorded behind the calls of the active frames, outermost first, then the entry of
+    the failing instruction. -/
+theorem C16_compiled (lab : Nat → Nat) (fns : List CFn) : C16_full (ReachCompiled lab fns) :=
+  C16_partial _ fun t ⟨s, hs, ht⟩ => ht ▸ throw_site_ok lab fns s hs
+
+/-- **C16_compiled_lines.**  In labels (lines): the reported trace lists, outermost first, the label
+    of the position the compiler recorded for the CALL / CALLNAME instruction at which each active
+    frame is suspended (`frame.ip - 2`: the position of the call expression), and last the label of
+    the position recorded for the failing instruction. -/
+theorem C16_compiled_lines (lab : Nat → Nat) (fns : List CFn) (s : State) (h : UncaughtThrow lab fns s) :
+    ((stackTraceRaw (throwTrace false (siteOf fns s).curFn (siteOf fns s).curIp (siteOf fns s).callers []).1).map
+        fun fp => lab fp.offset.toNat)
+      = ((List.range s.curFrame).map fun i => lab (recorded fns s (s.frames[i]!) ((s.frames[i]!).ip - 2)).toNat)
+        ++ [lab (recorded fns s (s.frames[s.curFrame]!) s.ip).toNat] := by
+  have ht : TraceTrue (siteOf fns s) := C16_compiled lab fns _ ⟨s, h, rfl⟩
+  unfold TraceTrue at ht
+  have hm := congrArg (List.map fun p : Int => lab p.toNat) ht
+  rw [List.map_map] at hm
+  rw [show (fun fp : FilePos => lab fp.offset.toNat) = ((fun p : Int => lab p.toNat) ∘ fun fp => fp.offset) from rfl, hm]
+  simp only [siteOf, List.map_append, List.map_cons, List.map_nil, List.map_reverse, List.reverse_reverse, List.map_map]
+  congr 1
+  apply List.map_congr_left
+  intro i hi
+  have hi' : i < s.curFrame := by simpa using hi
+  obtain ⟨g, v, v', hff, hv, hv', hlab, _⟩ := caller_reports lab h.codes h.cov (h.sites.inv i hi')
+  simp [Function.comp, recorded, hff, hv, hv', hlab]
+
+/-- the loader: `NewVM(bc)` for compile-model bytecode (`Model/Eval.setBytecode` on a new VM;
+    `Props/C04.load_compiled`: the serializer's loader builds the same state) -/
+def loaded (bc : Compile.Bytecode) : State := Eval.setBytecode (newState #[] #[] #[] 0 0) bc.main 0 bc.constants #[]
+
+/-- **What is still a hypothesis** (control-flow integrity of the VM on compiled code): at every
+    instruction boundary of the run with `vm.err` unset, the offset `ip + 1` at which the next opcode is
+    fetched is ≥ 0 and an instruction start of the current function.  (Needs: jump and try targets
+    are instruction starts — `Props/C05.compile_wf` —, every opcode advances `ip` by its operand
+    width, handlers and finalizers resume at instruction starts.  Tested by the lock-step
+    `vmtrace` stream, which compares (frameIndex, ip, opcode) before every instruction.) -/
+def ExecAtStarts (F : FloatOps) (s1 : State) : Prop :=
+  ∀ s, Boundary F s1 s → s.err = none → 0 ≤ s.ip + 1 ∧
+    ∃ fa c fr, (s.frames[s.curFrame]!).fn = some fa ∧ s.heap[fa]? = some (Cell.fn c fr) ∧
+      Bd (s.codes[c]!).insts (s.ip + 1).toNat
+
+theorem ExecAtStarts.dispG {F : FloatOps} {s1 : State} (hx : ExecAtStarts F s1) (s : State) (hb : Boundary F s1 s)
+    (he : s.err = none) : DispG AtStart s := by
+  obtain ⟨_, fa, c, fr, hfn, hheap, hbd⟩ := hx s hb he
+  intro fa' c' fr' hfn' hheap'
+  rw [hfn] at hfn'; cases hfn'
+  rw [hheap] at hheap'; cases hheap'
+  exact hbd
+
+/-- **compiled_run_sites.**  Compile (total compile model), load, run the prologue of `Run` with any
+    globals and arguments, execute any number of instructions (recovered Go panics included): at
+    every instruction boundary, the state in which the next instruction is dispatched
+    (`vm.ip++` done) satisfies `UncaughtThrow` when no active frame has a handler: the code memory
+    is the compiler's functions, all of them satisfy `FnCov lab`, every frame below the current one
+    is suspended at a CALL / CALLNAME instruction START of its function, the dispatched offset is an
+    instruction start. -/
+theorem compiled_run_sites (lab : Nat → Nat) (builtins : List (String × Nat)) (disabled : List String)
+    (file : List Ast.Stmt) (hl : Ast.labSs lab file = true) (bc : Compile.Bytecode)
+    (hc : compileFile builtins disabled file = .ok bc) (F : FloatOps) (g : V) (args : List V) (s1 : State)
+    (hpro : exec (prologue g args) (loaded bc) = (.ok (), s1)) (hx : ExecAtStarts F s1)
+    (s : State) (hb : Boundary F s1 s) (he : s.err = none)
+    (hnh : ∀ i, i ≤ s.curFrame → hasHandler (s.frames[i]!) = false) :
+    UncaughtThrow lab (fnList bc) { s with ip := s.ip + 1 } := by
+  have hcodes1 : s1.codes = (loaded bc).codes := by
+    have := prologue_codes g args (loaded bc)
+    rw [hpro] at this; exact this
+  have hcodes : s.codes.toList = (fnList bc).map Eval.codeOfCFn := by
+    rw [boundary_codes F hb, hcodes1]; exact load_codes bc
+  have hcs1 : CallSites AtStart s1 := callSites_prologue g args (load_frames bc) hpro
+  have hcs : CallSites AtStart s := reach_callSites F hcs1 (fun s hb he => hx.dispG s hb he) s hb he
+  obtain ⟨h0, fa, c, fr, hfn, hheap, hbd⟩ := hx s hb he
+  exact ⟨hcodes, fnList_cov lab builtins disabled file hl bc hc, ⟨hcs.link, hcs.size, hcs.lt, hcs.inv⟩,
+    ⟨fa, c, fr, hfn, hheap, h0, hbd⟩, hnh⟩
+
+/-- … hence the reported lines (`C16_compiled_lines`) for an error raised by the instruction
+    dispatched at that boundary, as far as `throw` is entered with the frames below, the current
+    function and `vm.ip` as they are at the dispatch (true of every opcode of vm.go by inspection;
+    every primitive of the VM model keeps them: `Proofs/VMCallSiteOps.lean`, `ck_*`). -/
+theorem compiled_run_lines (lab : Nat → Nat) (builtins : List (String × Nat)) (disabled : List String)
+    (file : List Ast.Stmt) (hl : Ast.labSs lab file = true) (bc : Compile.Bytecode)
+    (hc : compileFile builtins disabled file = .ok bc) (F : FloatOps) (g : V) (args : List V) (s1 : State)
+    (hpro : exec (prologue g args) (loaded bc) = (.ok (), s1)) (hx : ExecAtStarts F s1)
+    (s : State) (hb : Boundary F s1 s) (he : s.err = none)
+    (hnh : ∀ i, i ≤ s.curFrame → hasHandler (s.frames[i]!) = false) :
+    let sd : State := { s with ip := s.ip + 1 }
+    let t := siteOf (fnList bc) sd
+    ((stackTraceRaw (throwTrace false t.curFn t.curIp t.callers []).1).map fun fp => lab fp.offset.toNat)
+      = ((List.range s.curFrame).map fun i =>
+            lab (recorded (fnList bc) sd (s.frames[i]!) ((s.frames[i]!).ip - 2)).toNat)
+        ++ [lab (recorded (fnList bc) sd (s.frames[s.curFrame]!) (s.ip + 1)).toNat] :=
+  C16_compiled_lines lab (fnList bc) _
+    (compiled_run_sites lab builtins disabled file hl bc hc F g args s1 hpro hx s hb he hnh)
+
+end compiled
 
 end UgoVerif.Props.C16
